@@ -493,6 +493,141 @@ func getExtra() *extraPKI {
 }
 
 // ---------------------------------------------------------------------------
+// look-alike chains: certificates that copy the subject and key identifiers of the genuine intermediate / root
+// but carry another key. Ground truth comes from the harness's own check with Go's crypto/x509 signature
+// verification: a presented chain is valid only if every link verifies under the next certificate's key up to
+// the configured root.
+
+type lookChain struct {
+	Name  string
+	Leaf  *tlspair.Leaf
+	Valid bool
+}
+
+var (
+	lookMu    sync.Mutex
+	lookCache = map[string][]lookChain{}
+)
+
+// chainVerifies: is there a path from chain[0] through presented certificates to root in which every signature verifies?
+func chainVerifies(chain [][]byte, root *gox509.Certificate) bool {
+	var certs []*gox509.Certificate
+	for _, der := range chain {
+		c, err := gox509.ParseCertificate(der)
+		if err != nil {
+			return false
+		}
+		certs = append(certs, c)
+	}
+	var up func(c *gox509.Certificate, depth int) bool
+	up = func(c *gox509.Certificate, depth int) bool {
+		if depth > 6 {
+			return false
+		}
+		if string(c.RawIssuer) == string(root.RawSubject) && c.CheckSignatureFrom(root) == nil {
+			return true
+		}
+		for _, p := range certs[1:] {
+			if string(p.RawSubject) == string(c.RawIssuer) && string(p.Raw) != string(c.Raw) && c.CheckSignatureFrom(p) == nil && up(p, depth+1) {
+				return true
+			}
+		}
+		return false
+	}
+	return up(certs[0], 0)
+}
+
+// lookalikeChains builds (once per kind and role) the presented-chain variants for a leaf key of the given kind.
+func lookalikeChains(kind string, client bool) []lookChain {
+	lookMu.Lock()
+	defer lookMu.Unlock()
+	ck := fmt.Sprintf("%s/%v", kind, client)
+	if v, ok := lookCache[ck]; ok {
+		return v
+	}
+	p := tlspair.Get()
+	now := tlspair.Now
+	nb, na := now.Add(-365*24*time.Hour), now.Add(365*24*time.Hour)
+	root, _ := gox509.ParseCertificate(p.RootDER)
+	inter, _ := gox509.ParseCertificate(p.InterDER)
+	kA := keys.Get().ECByCurve("P521")[2] // look-alike intermediate key
+	kF := keys.Get().ECByCurve("P521")[3] // look-alike root key
+	serial := int64(700000)
+	mk := func(t, parent *gox509.Certificate, pub crypto.PublicKey, signer crypto.Signer) []byte {
+		serial++
+		t.SerialNumber = big.NewInt(serial)
+		der, err := gox509.CreateCertificate(rand.Reader, t, parent, pub, signer)
+		if err != nil {
+			panic(err)
+		}
+		return der
+	}
+	caT := func(like *gox509.Certificate) *gox509.Certificate {
+		return &gox509.Certificate{Subject: like.Subject, RawSubject: like.RawSubject, SubjectKeyId: like.SubjectKeyId, NotBefore: nb, NotAfter: na,
+			IsCA: true, BasicConstraintsValid: true, KeyUsage: gox509.KeyUsageCertSign | gox509.KeyUsageCRLSign | gox509.KeyUsageDigitalSignature}
+	}
+	// look-alike root: subject and SKI of the real root, own key, self-signed
+	frT := caT(root)
+	frDER := mk(frT, frT, &kF.PublicKey, kF)
+	fr, _ := gox509.ParseCertificate(frDER)
+	// look-alike intermediate A: subject and SKI of the genuine intermediate, issuer = the real root's name, signed by the look-alike root key
+	aDER := mk(caT(inter), fr, &kA.PublicKey, kF)
+	a, _ := gox509.ParseCertificate(aDER)
+	// look-alike intermediate S: the same, self-signed
+	sT := caT(inter)
+	sDER := mk(sT, sT, &kA.PublicKey, kA)
+	eku := []gox509.ExtKeyUsage{gox509.ExtKeyUsageServerAuth}
+	cn, dns := tlspair.ServerName, []string{tlspair.ServerName}
+	if client {
+		eku = []gox509.ExtKeyUsage{gox509.ExtKeyUsageClientAuth}
+		cn, dns = "client.test", []string{"client.test"}
+	}
+	leafT := func() *gox509.Certificate {
+		return &gox509.Certificate{Subject: pkix.Name{CommonName: cn}, DNSNames: dns, IPAddresses: []net.IP{net.IPv4(127, 0, 0, 1)}, NotBefore: nb, NotAfter: na,
+			KeyUsage: gox509.KeyUsageDigitalSignature | gox509.KeyUsageKeyEncipherment, ExtKeyUsage: eku, BasicConstraintsValid: true}
+	}
+	key := p.Server[kind].Key
+	lBad := mk(leafT(), a, key.Public(), kA)              // leaf signed by the look-alike intermediate key
+	lGood := mk(leafT(), inter, key.Public(), p.InterKey) // leaf signed by the genuine intermediate
+	G, A, S, FR := p.InterDER, aDER, sDER, frDER
+	variants := []struct {
+		name  string
+		chain [][]byte
+	}{
+		{"genuine_leaf+G", [][]byte{lGood, G}},
+		{"genuine_leaf+A+G", [][]byte{lGood, A, G}},
+		{"genuine_leaf+G+A", [][]byte{lGood, G, A}},
+		{"genuine_leaf+S+G+FR", [][]byte{lGood, S, G, FR}},
+		{"genuine_leaf+A", [][]byte{lGood, A}},
+		{"lookalike_leaf+A", [][]byte{lBad, A}},
+		{"lookalike_leaf+A+G", [][]byte{lBad, A, G}},
+		{"lookalike_leaf+G+A", [][]byte{lBad, G, A}},
+		{"lookalike_leaf+G", [][]byte{lBad, G}},
+		{"lookalike_leaf+S", [][]byte{lBad, S}},
+		{"lookalike_leaf+S+G", [][]byte{lBad, S, G}},
+		{"lookalike_leaf+G+S", [][]byte{lBad, G, S}},
+		{"lookalike_leaf+A+S+G", [][]byte{lBad, A, S, G}},
+		{"lookalike_leaf+A+FR", [][]byte{lBad, A, FR}},
+		{"lookalike_leaf+A+FR+G", [][]byte{lBad, A, FR, G}},
+		{"lookalike_leaf+A+G+FR", [][]byte{lBad, A, G, FR}},
+		{"lookalike_leaf+G+A+FR", [][]byte{lBad, G, A, FR}},
+		{"lookalike_leaf+FR+A+G", [][]byte{lBad, FR, A, G}},
+		{"lookalike_leaf+A+G+real_root", [][]byte{lBad, A, G, p.RootDER}},
+		{"lookalike_leaf+A+A+G", [][]byte{lBad, A, A, G}},
+	}
+	var out []lookChain
+	for _, v := range variants {
+		out = append(out, lookChain{Name: v.name, Leaf: &tlspair.Leaf{Kind: kind, DER: v.chain[0], Key: key, Chain: v.chain}, Valid: chainVerifies(v.chain, root)})
+	}
+	lookCache[ck] = out
+	return out
+}
+
+var lookVariantNames = []string{"genuine_leaf+G", "genuine_leaf+A+G", "genuine_leaf+G+A", "genuine_leaf+S+G+FR", "genuine_leaf+A", "lookalike_leaf+A", "lookalike_leaf+A+G",
+	"lookalike_leaf+G+A", "lookalike_leaf+G", "lookalike_leaf+S", "lookalike_leaf+S+G", "lookalike_leaf+G+S", "lookalike_leaf+A+S+G", "lookalike_leaf+A+FR",
+	"lookalike_leaf+A+FR+G", "lookalike_leaf+A+G+FR", "lookalike_leaf+G+A+FR", "lookalike_leaf+FR+A+G", "lookalike_leaf+A+G+real_root", "lookalike_leaf+A+A+G"}
+
+// ---------------------------------------------------------------------------
 // misc
 
 func sortedKeys[M ~map[string]V, V any](m M) []string {
